@@ -945,6 +945,26 @@ func c14Groups(e *Env) {
 		// which constant keys are looked up, and does each looked-up value reach a return / call argument
 		// without being conditioned on anything but its own emptiness?
 		used := map[string]bool{}
+		// the function and the helpers of its package it calls directly (an extracted `qualifiedName(raw)`)
+		for _, uf := range unitFns(fn, 1) {
+			allInstrs(uf, func(_ *ssa.Function, ins ssa.Instruction) {
+				if lk, ok := ins.(*ssa.Lookup); ok {
+					if k, ok := constString(lk.Index); ok {
+						for _, ref := range *lk.Referrers() {
+							switch u := ref.(type) {
+							case *ssa.BinOp:
+								if u.Op == token.ADD {
+									used[k] = true
+								}
+							case *ssa.DebugRef:
+							default:
+								used[k] = true
+							}
+						}
+					}
+				}
+			})
+		}
 		allInstrs(fn, func(_ *ssa.Function, ins ssa.Instruction) {
 			if lk, ok := ins.(*ssa.Lookup); ok {
 				if k, ok := constString(lk.Index); ok {
